@@ -2636,3 +2636,120 @@ func ruleFloatLit(p *Prog, r *Result) {
 	}
 	r.floor("float literals built by the folder", n, 2)
 }
+
+// ---------------- REORDERKIND ----------------
+
+func init() {
+	register("REORDERKIND", "re-association combines the two constants first, so it is made only for constants that combine to the same value whatever the left operand is: every store that re-associates (a fresh BinaryOpExpr of two constants put into the outer node) is dominated by the positive outcome of a guard - a package function of the two constants - which, evaluated abstractly for each assignment of {text, integer, float literal} to them, is false whenever the two kinds differ and whenever a float literal is involved (an integer and a float constant round differently once added first; float addition is not associative)", ruleReorderKind)
+}
+
+func ruleReorderKind(p *Prog, r *Result) {
+	t := p.Named("ExpressionOptimizer")
+	if t == nil {
+		r.undecided("anchor: ExpressionOptimizer not found")
+		return
+	}
+	isExprT := func(tt types.Type) bool { return typeName(tt) == "Expression" }
+	guardOK := map[*ssa.Function]string{}
+	checkGuard := func(g *ssa.Function) string {
+		if m, ok := guardOK[g]; ok {
+			return m
+		}
+		var ps []*ssa.Parameter
+		for _, pa := range g.Params {
+			if isExprT(pa.Type()) {
+				ps = append(ps, pa)
+			}
+		}
+		if len(ps) != 2 || g.Signature.Results().Len() != 1 {
+			guardOK[g] = "not a predicate of two expressions"
+			return guardOK[g]
+		}
+		nodeOf := map[string]string{"text": "StringExpr", "int": "NumberExpr", "float": "FloatExpr"}
+		bad := ""
+		for _, k1 := range []string{"text", "int", "float"} {
+			for _, k2 := range []string{"text", "int", "float"} {
+				if k1 == k2 && k1 != "float" {
+					continue
+				}
+				as := &assumption{p: p}
+				as.leaf = func(*ssa.Function, ssa.Value, map[*ssa.Parameter]string) (aval, bool) { return aval{}, false }
+				as.typeTest = func(f *ssa.Function, ta *ssa.TypeAssert, bound map[*ssa.Parameter]string) (abool, bool) {
+					pa, ok := stripConv(ta.X).(*ssa.Parameter)
+					if !ok || bound[pa] == "" {
+						return abBoth, false
+					}
+					if typeName(deref(ta.AssertedType)) == nodeOf[bound[pa]] {
+						return abTrue, true
+					}
+					return abFalse, true
+				}
+				as.bind = func(f *ssa.Function, arg ssa.Value, bound map[*ssa.Parameter]string) string {
+					if pa, ok := stripConv(arg).(*ssa.Parameter); ok {
+						return bound[pa]
+					}
+					return ""
+				}
+				res := as.run(g, map[*ssa.Parameter]string{ps[0]: k1, ps[1]: k2})
+				for _, ret := range res.rets {
+					ev := res.ev(retVal(ret, 0))
+					if !(ev.kind == 2 && ev.b == abFalse) {
+						bad = fmt.Sprintf("%s can be true for a %s and a %s constant (%s)", g.Name(), k1, k2, p.InstrPos(ret))
+					}
+				}
+			}
+		}
+		guardOK[g] = bad
+		return bad
+	}
+	n := 0
+	for _, fn := range p.methodsOf(t) {
+		idx := 0
+		allInstrs(fn, func(in ssa.Instruction) {
+			st, ok := in.(*ssa.Store)
+			if !ok {
+				return
+			}
+			o, fl, base, ok := fieldOfAddr(st.Addr)
+			if !ok || o == nil || o.Obj().Name() != "BinaryOpExpr" || fl != "Right" {
+				return
+			}
+			if _, isParam := cellRoot(base).(*ssa.Parameter); !isParam {
+				return
+			}
+			fresh := false
+			if mi, ok := st.Val.(*ssa.MakeInterface); ok {
+				if al, ok := mi.X.(*ssa.Alloc); ok && typeName(deref(al.Type())) == "BinaryOpExpr" {
+					fresh = true
+				}
+			}
+			if !fresh {
+				return
+			}
+			n++
+			idx++
+			msg := "no guard on the kinds of the two constants dominates the rewrite"
+			for _, a := range dominatingAtoms(st.Block()) {
+				c, ok := a.X.(*ssa.Call)
+				if !ok {
+					continue
+				}
+				bv, isB := constBool(a.Y)
+				if !isB || ((a.Op == token.EQL) == bv) == false {
+					continue
+				}
+				g := c.Call.StaticCallee()
+				if g == nil || !p.InPkg(g) {
+					continue
+				}
+				if m := checkGuard(g); m == "" {
+					msg = ""
+				} else if msg != "" {
+					msg = m
+				}
+			}
+			r.add(msg == "", fmt.Sprintf("%s|rewrite#%d", p.FName(fn), idx), p.InstrPos(st), firstNonEmpty(msg, "the rewrite is made only for two texts or two integer constants"))
+		})
+	}
+	r.floor("re-association sites", n, 1)
+}
